@@ -46,6 +46,18 @@ def fail_servers():
     }
 
 
+def edit_then_abort_servers():
+    """targets whose scan first writes a finding into the rating database (small RSA host key) and then leaves through
+    sys.exit(): the reconnect for the next host-key type is answered with a bad block size"""
+    res = {}
+    for tag, bits in (('J', 1024), ('K', 2048)):
+        ok = fn.simple_server(kex=('curve25519-sha256',), key=('rsa-sha2-512', 'rsa-sha2-256', 'ssh-ed25519'), enc=('aes256-ctr',), mac=('hmac-sha2-256-etm@openssh.com',),
+                              hostkeys={'rsa-sha2-512': fn.rsa_blob(bits), 'rsa-sha2-256': fn.rsa_blob(bits), 'ssh-ed25519': fn.ed25519_blob()})
+        bad = fn.Server(raw_after_banner=b'\x00\x00\x00\x0d\x04' + b'\x14' + b'\x00' * 29)
+        res[tag] = fn.StagedServer([ok, ok, bad])
+    return res
+
+
 def ip_of(i):
     return '10.7.%d.%d' % (i // 200, 1 + i % 200)
 
